@@ -47,8 +47,16 @@ def freshFlags : Flags := {}
 
 /-- `ConfigList(values)`: a new plain list whose constructor inherits its flags into the
     (already built) children. -/
-def newPlainList (vals : List Node) : Node :=
+def freshPlainList (vals : List Node) : Node :=
   .comp freshFlags .list (renum (vals.map (inheritInto none (childKw freshFlags .list))))
+
+/-- `ConfigList(self)._replace_other(self)` for an `!append` / `!extend` node `self` with flags `f` that has
+    no destination: the new plain list stands for the operator node — it takes over the operator's explicit
+    `safe` (conjunction), its source-level flag and its metadata (priority and delete are not carried), and
+    re-propagates (`_replace_other` ends with `_propagate_implicit_values`). -/
+def newPlainList (f : Flags) (vals : List Node) : Node :=
+  propagate (.comp (replaceOtherFlags freshFlags f) .list
+    (renum (vals.map (inheritInto none (childKw freshFlags .list)))))
 
 /-- `node.extend(values)` on a list-family node -/
 def extendList (f : Flags) (k : CompKind) (cs : List (Key × Node)) : List Node → List (Key × Node)
@@ -138,7 +146,7 @@ def premergeF : Nat → Node → Path → Option Node → PM
       match k with
       | .append =>
         match into with
-        | none => .ok (newPlainList (cs.map (·.2)), false, none)
+        | none => .ok (newPlainList f (cs.map (·.2)), false, none)
         | some root =>
           match removeNode root path with
           | none => .error .premerge
@@ -149,7 +157,7 @@ def premergeF : Nat → Node → Path → Option Node → PM
           | some (.leaf .., _) => .error .premerge
       | .extend =>
         match into with
-        | none => .ok (newPlainList (cs.map (·.2)), false, none)
+        | none => .ok (newPlainList f (cs.map (·.2)), false, none)
         | some root =>
           match getNode root path with
           | some (.comp tf tk tcs) =>
@@ -158,8 +166,8 @@ def premergeF : Nat → Node → Path → Option Node → PM
               | none => .error .premerge
               | some (_, root') =>
                 .ok (.comp tf tk (extendList tf tk tcs (cs.map (·.2))), false, some root')
-            else .ok (newPlainList (cs.map (·.2)), false, some root)
-          | _ => .ok (newPlainList (cs.map (·.2)), false, some root)
+            else .ok (newPlainList f (cs.map (·.2)), false, some root)
+          | _ => .ok (newPlainList f (cs.map (·.2)), false, some root)
       | .stream =>
         match flattenWith (premergeF fuel) (cs.map (·.2)) with
         | .error .unsupported => .error .unsupported
